@@ -94,10 +94,11 @@ CHECKS = {
                  'follows), and fails only where an authority accessor fails (C07_recompose*); unsplit_result and make_netloc of '
                  'yarl/_parse.py and the constructors encode_url / pre_encoded_url of yarl/_url.py are re-translated from the source on '
                  'every run and proved equal to the model - same outcome on every input, same stored strings, same primed cache '
-                 'entries; __str__ likewise (C07_source_*). '
+                 'entries; __str__, split_netloc, build, build_pre_encoded_url, from_parts_uncached and the four query operations likewise (C07_source_*). '
                  'PARTIAL: consistency of the stored '
                  'authority with the reported parts is an extracted predicate on the implementation (exhaustive delimiter strings, Unicode '
-                 'aliases of scheme characters and digits). Known finding F17.'),
+                 'aliases of scheme characters and digits), and so is the re-composition of URLs produced by operations (suite C07-derived: 10 bases x 31 '
+                 'operations with the receiver fully read first, predicate c07_derived_pred incl. raw_path_qs). Known finding F17.'),
         "design_ref": "DESIGN.md section 7 C07",
     },
     "C08": {
